@@ -1593,6 +1593,32 @@ func expiryMatrix() []*caseT {
 	return out
 }
 
+// spellingMatrix: near misses of the right credential, on every run (not left to the random stream): a proper
+// prefix of the secret, a one-character secret, the secret extended, doubled, in another case, with one character
+// changed at the start / at the end; the mapping id in another case / extended.
+// spelling (9) x identity (listen, target) x tunnel state (3).
+func spellingMatrix() []*caseT {
+	var out []*caseT
+	sec := mapM.secret
+	creds := [][2]string{{"M", sec[:len(sec)-1]}, {"M", sec[:1]}, {"M", sec + "x"}, {"M", sec + sec}, {"M", strings.ToUpper(sec)},
+		{"M", "X" + sec[1:]}, {"M", sec[:len(sec)-1] + "X"}, {"m", sec}, {"MM", sec}}
+	for _, cr := range creds {
+		for _, cid := range []int64{11, 22} {
+			for _, ts := range []string{"none", "waiting", "remote"} {
+				c := &caseT{pl: "ok", hs: 1, cid: cid, rmid: cr[0], rsec: cr[1], maps: []mappingT{mapM, mapF}, ts: "none"}
+				switch ts {
+				case "waiting":
+					c.ts, c.tsMid = "bridge", "M"
+				case "remote":
+					c.ts, c.tsMid = "remote", "M"
+				}
+				out = append(out, c)
+			}
+		}
+	}
+	return out
+}
+
 // configMatrix: configurations and fault points of the cross-node path — this node without a routing table, the
 // other node unreachable (address lookup / dial fails after the ack), a waiting route past its own expiry time.
 func configMatrix() []*caseT {
@@ -1873,6 +1899,11 @@ func main() {
 			lines = append(lines, c.String())
 		}
 		runAll(out, lines, "expiry-matrix")
+		lines = nil
+		for _, c := range spellingMatrix() {
+			lines = append(lines, c.String())
+		}
+		runAll(out, lines, "spelling-matrix")
 		runAll(out, []string{"e2e"}, "e2e")
 		runAll(out, []string{"rmw usage", "rmw usage-read1", "rmw usage-read2", "rmw stats", "rmw stats-read1", "rmw status", "rmw status-read1"}, "rmw")
 		n := 600
